@@ -83,10 +83,26 @@ fn infer<P: Provenance>(case: &Value, prov: P) -> (Vec<([i64; 3], f64)>, Vec<[i6
     (out, newv)
 }
 
+/// The same program with every uncertain fact's probability p replaced by 1 - p (den/2 becomes den/4 or 1/den).
+fn revised(case: &Value) -> Value {
+    let mut c = case.clone();
+    let den = case["den"].as_i64().unwrap();
+    for f in c["seeds"].as_array_mut().unwrap() {
+        let p = f[3].as_i64().unwrap();
+        let q = if 2 * p == den { (den / 4).max(1) } else { den - p };
+        f[3] = json!(q.clamp(0, den));
+    }
+    c
+}
+
 fn run_mode(case: &Value, mode: &str) -> (Vec<([i64; 3], f64)>, Vec<[i64; 3]>) {
     match mode {
         "dnf" => infer(case, DnfWmcProvenance::new()),
         "sdd" => infer(case, SddProvenance::new()),
+        // one provenance object (clones share the manager / weight table) used for an earlier materialisation of the same
+        // program under other probabilities, then for the one that is judged
+        "dnf-warm" => { let p = DnfWmcProvenance::new(); let _ = infer(&revised(case), p.clone()); infer(case, p) }
+        "sdd-warm" => { let p = SddProvenance::new(); let _ = infer(&revised(case), p.clone()); infer(case, p) }
         "minmax" => infer(case, MinMaxProbability),
         "bool" => infer(case, BooleanProvenance),
         "addmult" => infer(case, AddMultProbability),
@@ -128,7 +144,9 @@ fn reset_event(out: &mut Out, run: u64, case: &Value) {
                   "den":case["den"],"hasmodel":hasmodel,"model":model,"case":case}));
 }
 
-fn prob_event(out: &mut Out, run: u64, case: &Value, mode: &str, res: Option<ModeResult>) {
+fn prob_event(out: &mut Out, run: u64, case: &Value, mode_full: &str, res: Option<ModeResult>) {
+    let warm = mode_full.ends_with("-warm");
+    let mode = mode_full.trim_end_matches("-warm");
     let den = case["den"].as_i64().unwrap();
     let n = case["seeds"].as_array().unwrap().len() as i32;
     let scale: f64 = match mode {
@@ -150,15 +168,15 @@ fn prob_event(out: &mut Out, run: u64, case: &Value, mode: &str, res: Option<Mod
                 json!([t[0], t[1], t[2], if x.is_finite() { rr as i64 } else { -1 }])
             }).collect();
             let exact = facts.iter().all(|(_, p)| (p * scale).fract() == 0.0);
-            out.ev(json!({"ev":"prob","run":run,"mode":mode,"ret":"ok","grid":grid,"integral":exact,"offgrid":worst,
+            out.ev(json!({"ev":"prob","run":run,"mode":mode,"warm":warm,"ret":"ok","grid":grid,"integral":exact,"offgrid":worst,
                           "out":outv,"new":newv}));
         }
         Some(Err(msg)) => {
-            out.ev(json!({"ev":"prob","run":run,"mode":mode,"ret":"panic","grid":true,"integral":true,
+            out.ev(json!({"ev":"prob","run":run,"mode":mode,"warm":warm,"ret":"panic","grid":true,"integral":true,
                           "offgrid":msg.chars().take(120).collect::<String>(),"out":[],"new":[]}));
         }
         None => {
-            out.ev(json!({"ev":"prob","run":run,"mode":mode,"ret":"timeout","grid":true,"integral":true,"offgrid":"",
+            out.ev(json!({"ev":"prob","run":run,"mode":mode,"warm":warm,"ret":"timeout","grid":true,"integral":true,"offgrid":"",
                           "out":[],"new":[]}));
         }
     }
@@ -290,8 +308,10 @@ fn gen_case(rng: &mut Rng, maxu: u64, naf_share: u64) -> Value {
     let mut rules = rules;
     rng.shuffle(&mut rules);
     let k = [1, 2, 3, 5][rng.below(4) as usize];
+    // every fourth case: the exact modes re-use a provenance object that has seen the program under other probabilities
+    let modes = if rng.chance(1, 4) { json!(["dnf-warm", "sdd-warm", "minmax", "bool"]) } else { json!(["dnf", "sdd", "minmax", "bool", "topk", "addmult"]) };
     json!({"rules":rules,"certain":certain,"seeds":seeds,"den":den,"perm":perm,
-           "modes":["dnf","sdd","minmax","bool","topk","addmult"],"k":k,
+           "modes":modes,"k":k,
            "hasmodel":false,"model":[]})
 }
 
